@@ -19,15 +19,32 @@ theorem owner_only_closes (a : Args) (p : Plan) (h : resolve a = .ok p) :
   | useCaller id n => simp [Plan.closes]
   | openPath path mode c => simp [Plan.closes]
 
-/-- a caller-supplied object is used whenever one is given, whatever else is passed -/
+/-- a caller-supplied object is used whenever one is given, whatever else is passed (a `filename=` whose
+__fspath__() returns a non-path is the TypeError of `misuse_errors`) -/
 theorem caller_object_wins (a : Args) (id : Nat) (r w : Bool) (h : a.filething = .fileobj id r w)
-    (hr : r = true) (hw : a.writable = true → w = true) :
+    (hr : r = true) (hw : a.writable = true → w = true) (hk : ∀ pa, a.filenameKw = some pa → pa ≠ .pathLike none) :
     ∃ n, resolve a = .ok (.useCaller id n) := by
   unfold resolve
-  simp only [h, reduceCtorEq, ↓reduceIte, hr, Bool.not_true, Bool.false_eq_true]
-  by_cases hwr : a.writable = true
-  · simp [hwr, hw hwr]
-  · simp [hwr]
+  simp only [h]
+  cases hf : a.filenameKw with
+  | none =>
+    by_cases hwr : a.writable = true
+    · simp [hwr, hw hwr, hr]
+    · simp [hwr, hr]
+  | some pa =>
+    have := hk pa hf
+    cases pa with
+    | plain p =>
+      by_cases hwr : a.writable = true
+      · simp [PathArg.fspath, Except.map, hwr, hw hwr, hr]
+      · simp [PathArg.fspath, Except.map, hwr, hr]
+    | pathLike q =>
+      cases q with
+      | none => exact absurd rfl this
+      | some p =>
+        by_cases hwr : a.writable = true
+        · simp [PathArg.fspath, Except.map, hwr, hw hwr, hr]
+        · simp [PathArg.fspath, Except.map, hwr, hr]
 
 /-- the same object passed by keyword behaves like the positional form -/
 theorem keyword_equals_positional (a : Args) (id : Nat) (r w : Bool) (hn : a.filething = .none)
@@ -36,26 +53,47 @@ theorem keyword_equals_positional (a : Args) (id : Nat) (r w : Bool) (hn : a.fil
   unfold resolve
   simp [hn, hk]
 
-/-- a path, a path given as `filename=`, and a path-like object resolve to the same plan -/
+/-- a path, a path given as `filename=`, a path-like object and a path-like object given as `filename=`
+resolve to the same plan -/
 theorem path_forms_agree (a : Args) (p : String) (hk : a.fileobjKw = none) (hf : a.filenameKw = none) :
     resolve { a with filething := .path p } = resolve { a with filething := .pathLike (some p) } ∧
-    resolve { a with filething := .path p } = resolve { a with filething := .none, filenameKw := some p } := by
+    resolve { a with filething := .path p } = resolve { a with filething := .none, filenameKw := some (.plain p) } ∧
+    resolve { a with filething := .path p } = resolve { a with filething := .none, filenameKw := some (.pathLike (some p)) } := by
   unfold resolve
-  simp [hk, hf]
+  simp [hk, PathArg.fspath, Except.map]
 
-/-- nothing usable passed: TypeError; an object that cannot be read (or written when needed): ValueError -/
+/-- next to any positional argument, `filename=` given as a path-like object counts like the plain path -/
+theorem filename_kw_forms_agree (a : Args) (p : String) :
+    resolve { a with filenameKw := some (.plain p) } = resolve { a with filenameKw := some (.pathLike (some p)) } := by
+  unfold resolve
+  cases a.filething <;> simp [PathArg.fspath, Except.map]
+
+/-- nothing usable passed: TypeError; an object that cannot be read (or written when needed): ValueError;
+a path-like whose __fspath__() gives no path, positionally or by keyword: TypeError -/
 theorem misuse_errors (a : Args) :
     (a.filething = .none → a.filenameKw = none → a.fileobjKw = none → (a.isMethod && a.writable) = false →
       resolve a = .error .type_) ∧
-    (∀ id w, a.filething = .fileobj id false w → resolve a = .error .value) := by
-  constructor
+    (∀ id w, a.filething = .fileobj id false w → (∀ pa, a.filenameKw = some pa → pa ≠ .pathLike none) → resolve a = .error .value) ∧
+    (a.filething = .pathLike none → resolve a = .error .type_) ∧
+    (a.filething = .none → a.filenameKw = some (.pathLike none) → resolve a = .error .type_) := by
+  refine ⟨?_, ?_, ?_, ?_⟩
   · intro h1 h2 h3 h4
     unfold resolve
     simp [h1, h2, h3, h4]
-  · intro id w h
+  · intro id w h hk
     unfold resolve
-    simp [h]
-
+    simp only [h]
+    cases hf : a.filenameKw with
+    | none => simp
+    | some pa =>
+      have := hk pa hf
+      cases pa with
+      | plain p => simp [PathArg.fspath, Except.map]
+      | pathLike q => cases q with
+        | none => exact absurd rfl this
+        | some p => simp [PathArg.fspath, Except.map]
+  · intro h; unfold resolve; simp [h, PathArg.fspath, Except.map]
+  · intro h h2; unfold resolve; simp [h, h2, PathArg.fspath, Except.map]
 /-- the modelled programs use the file only through the six documented calls: every entry of
 the call log is one of them (the log type has no other constructor), and their exceptions are
 those of these calls -/
@@ -66,6 +104,7 @@ theorem only_documented_calls (o : Op) :
 
 /-! non-vacuity -/
 example : resolve { filething := .path "a.mp3", writable := true } = .ok (.openPath "a.mp3" "rb+" false) := by decide
+example : resolve { filenameKw := some (.pathLike (some "a.mp3")) } = .ok (.openPath "a.mp3" "rb" false) := by decide
 example : resolve { filething := .fileobj 7 true false, writable := true } = .error .value := by decide
 
 end Mutagen.C17
